@@ -8,7 +8,7 @@ from vlib.coqfmt import cfloat, cnat, cbool, clist
 ENV_BY_TIER = {"quick": {"NUMBA_DISABLE_JIT": "1"}, "thorough": {}}
 
 RULE = ("msprime tree sequences (2-9 contemporaneous samples, 1-1000 bp, recombination, Kingman/Beta/Dirac mergers "
-        "=> polytomies) x prior distribution (lognorm, gamma) x timepoints (integer 2..30, or an explicit grid: "
+        "=> polytomies; half of them with ALL node ids renumbered at random, so samples are not ids 0..n-1) x prior distribution (lognorm, gamma) x timepoints (integer 2..30, or an explicit grid: "
         "sorted or shuffled, starting at 0 or not, 2-12 values over 1e-3..1e5) x population size (scalar 0.5..1e4 or "
         "a 2-4 epoch PopulationSizeHistory); a case is non-trivial when the tree sequence has >= 2 non-sample nodes "
         "with different descendant counts or the thinning loop of create_timepoints adds a quantile")
@@ -35,6 +35,10 @@ def dist_funcs(distr):
 def make_case(rng):
     n = rng.choice([2, 3, 3, 4, 5, 6, 7, 8, 9])
     ts = gen.sim_ts(rng, n=n, historical=False)
+    permuted = rng.random() < 0.5
+    if permuted:
+        # node ids carry no meaning: samples need not be ids 0..n-1 (forward simulators, subset())
+        ts = gen.permute_nodes(rng, ts)
     distr = rng.choice(["lognorm", "gamma"])
     if rng.random() < 0.55:
         tp = rng.choice([2, 3, 4, 5, 6, 8, 10, 15, 20, 20, 30])
@@ -63,7 +67,7 @@ def make_case(rng):
         while len(br) < e - 1:
             br.append(br[-1] + 1.0)
         pop = {"population_size": sizes, "time_breaks": br}
-    return {"ts": gen.ts_tables_dict(ts), "distr": distr, "timepoints": tp, "pop": pop}
+    return {"ts": gen.ts_tables_dict(ts), "distr": distr, "timepoints": tp, "pop": pop, "permuted": permuted}
 
 
 def pop_obj(pop):
@@ -303,7 +307,7 @@ def run(ctx, model_ok=True):
     for c, r in zip(cases, results):
         nontriv = False
         kind = ("count" if isinstance(c["timepoints"], int) else "user-grid") + "/" + c["distr"] + \
-            ("/epochs" if isinstance(c["pop"], dict) else "/const")
+            ("/epochs" if isinstance(c["pop"], dict) else "/const") + ("/permuted-ids" if c.get("permuted") else "")
         if r is not None:
             ks = set()
             for u in r["prior"].nonfixed_nodes:
